@@ -93,7 +93,7 @@ structure Scope where
   rngs : List (String × LazyRng)     -- `Scope.rngs`, dict order
   path : List String                 -- `Scope.path`
   cref : CRef                        -- which counter dict `Scope.rng_counters` refers to
-  deriving Repr, Inhabited
+  deriving Repr, Inhabited, DecidableEq
 
 structure Store where
   dicts : List (CRef × List (String × Nat))
@@ -386,6 +386,37 @@ def dedupKeys : List (List String × String) → List (List String × String)
 /-- the delta `_restore_rng_counters` caches after tracing: new − old for every counter the body touched -/
 def deltaOf (body : List (List String × String)) : List (List String × String × Nat) :=
   (dedupKeys body).map (fun k => (k.1, k.2, (body.filter (fun d => decide (d = k))).length))
+
+/-! ### `lift._partial_pack`: which counter dict the inner twin of each lifted scope gets
+
+All lifted transforms (`map_variables`, `vmap`, `scan`, `remat`, `jit`, …) go through `pack`.  The scopes lifted together (a
+transformed module and the sub-modules it owns through dataclass attributes) are first deduplicated — duplicates are merged and a
+scope with a lifted ancestor is dropped, it is re-derived inside by `push(reuse=True)` — and then, for every *kept* scope, the inner
+scope is created with `inner_scope.rng_counters = scope.rng_counters`: the same dict object, so draws inside and outside the
+transform advance one counter per scope. -/
+
+def isAncestorScope (t s : Scope) : Bool :=
+  decide (t.cref.1 = s.cref.1) && decide (t.path.length < s.path.length) && decide (s.path.take t.path.length = t.path)
+
+def dedupEq {α : Type} [DecidableEq α] : List α → List α
+  | [] => []
+  | x :: xs => x :: (dedupEq xs).filter (fun y => decide (y ≠ x))
+
+/-- `_dedup_scopes` (the minimal set, in first-occurrence order) -/
+def dedupScopes (scopes : List Scope) : List Scope :=
+  (dedupEq scopes).filter (fun s => !(scopes.any (fun t => isAncestorScope t s)))
+
+/-- the inner scope `scope_fn` builds for a lifted scope, as far as rngs go (the streams are passed through unchanged when the
+transform neither splits nor forks them) -/
+def innerScope (s : Scope) (counters : CRef) : Scope := { s with cref := counters }
+
+/-- the shipped `_partial_pack`: counters are collected from the deduplicated scope list -/
+def packCounters (scopes : List Scope) : List (Scope × CRef) :=
+  (dedupScopes scopes).map (fun s => (s, s.cref))
+
+/-- **not** the shipped code: counters collected from the scope list *before* deduplication and zipped with the deduplicated one -/
+def packCountersBeforeDedup (scopes : List Scope) : List (Scope × CRef) :=
+  (dedupScopes scopes).zip (scopes.map (·.cref))
 
 /-! ## NNX streams -/
 
